@@ -741,7 +741,80 @@ func prop(c Case) error {
 	if t == nil {
 		return fmt.Errorf("route %s returned nil", route)
 	}
-	return lossless("route "+route, t, g, route != "reserve" || true)
+	if err := lossless("route "+route, t, g, route != "reserve" || true); err != nil {
+		return err
+	}
+	// what a constructor returns does not depend on what became of the values it
+	// returned before: the first value grows by an EMPTY part and by a part with
+	// coordinates, and the same route then builds the geometry a second time
+	if full, empty := growParts(g); full != nil && g.Layout != 0 {
+		if err := growT(t, empty); err != nil {
+			return fmt.Errorf("route %s: Push of an EMPTY part onto the result: %v", route, err)
+		}
+		if err := growT(t, full); err != nil {
+			return fmt.Errorf("route %s: Push of a part onto the result: %v", route, err)
+		}
+		t2, _, err := obtain(c)
+		if err != nil || t2 == nil {
+			return fmt.Errorf("route %s a second time: %v", route, err)
+		}
+		if err := lossless("route "+route+", a second time after the first result was grown by two Push calls,", t2, g, true); err != nil {
+			return err
+		}
+		// and a longer one by the same route
+		if g.Kind == model.MultiPoint && route == "flat-noends" {
+			s := g.Stride()
+			flat := make([]float64, (len(g.C1)+2)*s)
+			for i := range flat {
+				flat[i] = float64(i) + 0.25
+			}
+			mp := geom.NewMultiPointFlat(g.Lay(), flat)
+			if err := model.WellFormed(mp); err != nil {
+				return fmt.Errorf("a longer MultiPoint built from its coordinates alone after the first result was grown: %v", err)
+			}
+			for i := 0; i < mp.NumPoints(); i++ {
+				if f := mp.Point(i).FlatCoords(); len(f) != s || f[0] != flat[i*s] {
+					return fmt.Errorf("point %d of a longer MultiPoint built from its coordinates alone after the first result was grown reads %v", i, f)
+				}
+			}
+		}
+	}
+	return nil
+}
+
+// growParts returns a part with coordinates and an EMPTY part that can be pushed onto
+// a geometry of g's kind and layout (nil, nil for kinds without Push).
+func growParts(g *model.G) (full, empty *model.G) {
+	one := bad(g.Stride())
+	switch g.Kind {
+	case model.MultiPoint:
+		return &model.G{Kind: model.Point, Layout: g.Layout, C0: one}, &model.G{Kind: model.Point, Layout: g.Layout}
+	case model.Polygon:
+		return &model.G{Kind: model.LinearRing, Layout: g.Layout, C1: [][]model.F{one, one}}, &model.G{Kind: model.LinearRing, Layout: g.Layout, C1: [][]model.F{}}
+	case model.MultiLineString:
+		return &model.G{Kind: model.LineString, Layout: g.Layout, C1: [][]model.F{one, one}}, &model.G{Kind: model.LineString, Layout: g.Layout, C1: [][]model.F{}}
+	case model.MultiPolygon:
+		return &model.G{Kind: model.Polygon, Layout: g.Layout, C2: [][][]model.F{{one, one}, {}}}, &model.G{Kind: model.Polygon, Layout: g.Layout, C2: [][][]model.F{}}
+	}
+	return nil, nil
+}
+
+func growT(t geom.T, part *model.G) error {
+	p, err := model.Build(part, model.RouteFlat)
+	if err != nil {
+		return err
+	}
+	switch tt := t.(type) {
+	case *geom.Polygon:
+		return tt.Push(p.(*geom.LinearRing))
+	case *geom.MultiPoint:
+		return tt.Push(p.(*geom.Point))
+	case *geom.MultiLineString:
+		return tt.Push(p.(*geom.LineString))
+	case *geom.MultiPolygon:
+		return tt.Push(p.(*geom.Polygon))
+	}
+	return nil
 }
 
 // clonePush obtains a geometry by Clone and then grows the original and the clone
